@@ -93,9 +93,11 @@ theorem bind_of_err {α β} {p : Parser α} {f : α → Parser β} {s : Bytes}
 
 @[simp] theorem pure_apply {α} (a : α) (s : Bytes) : (Pure.pure a : Parser α) s = .ok (a, s) := rfl
 
-/-- `io.ReadFull(r, buf)` with `len(buf) = n`: all `n` bytes or an error (EOF / UnexpectedEOF). -/
+/-- `io.ReadFull(r, buf)` with `len(buf) = n`: all `n` bytes or an error (EOF / UnexpectedEOF).
+    (Written with `take` so that a read costs O(n), not O(remaining input).) -/
 def readN (n : Nat) : Parser Bytes := fun s =>
-  if n ≤ s.length then .ok (s.take n, s.drop n) else .err
+  let a := s.take n
+  if a.length = n then .ok (a, s.drop n) else .err
 
 theorem readN_append (bs rest : Bytes) : readN bs.length (bs ++ rest) = .ok (bs, rest) := by
   simp [readN]
@@ -107,15 +109,28 @@ theorem readN_append' (n : Nat) (bs rest : Bytes) (h : bs.length = n) :
 theorem readN_ok {n : Nat} {s r rest : Bytes} (h : readN n s = .ok (r, rest)) :
     s = r ++ rest ∧ r.length = n := by
   unfold readN at h
+  simp only at h
   split at h
-  · injection h with h; injection h with h1 h2
+  · rename_i hl
+    injection h with h; injection h with h1 h2
     subst h1 h2
-    refine ⟨(List.take_append_drop n s).symm, ?_⟩
-    simp [List.length_take]; omega
+    exact ⟨(List.take_append_drop n s).symm, hl⟩
   · cases h
 
 theorem readN_ne_panic (n : Nat) (s : Bytes) : readN n s ≠ .panic := by
-  unfold readN; split <;> simp
+  unfold readN; simp only; split <;> simp
+
+/-- the read succeeds exactly when enough input remains -/
+theorem readN_isOk_iff (n : Nat) (s : Bytes) : (∃ r, readN n s = .ok r) ↔ n ≤ s.length := by
+  unfold readN
+  simp only [List.length_take]
+  constructor
+  · rintro ⟨r, h⟩
+    split at h
+    · omega
+    · cases h
+  · intro h
+    exact ⟨_, by rw [if_pos (by omega)]⟩
 
 def readByte : Parser UInt8 := fun s =>
   match s with
